@@ -59,3 +59,17 @@ package signjar
 //@   loop 0 invariant @every_member_listed_once forall(i, 0, len(pre(jd.inz.File)), forall(j, 0, len(pre(jd.inz.File)), i != j ==> pre(jd.inz.File)[i] != pre(jd.inz.File)[j]))
 //@   loop 0 invariant @new_directory_in_its_own_memory outz.File == nil || allocated(outz.File)
 //@   ensures @patch_returned_on_success ret1 == nil ==> ret0 != nil && dirDone
+
+//@ func writeAttribute
+//@   property C05
+//@   requires out != nil
+//@   ghost cur int = 0
+//@   ghost emitted int = 0
+//@   before call (*bytes.Buffer).Write(b, p): assert @attribute_bytes_in_order_lines_of_at_most_70_bytes_continuations_start_with_one_space b == out && \
+//@        (samearr(p, line) ==> sameslice(p, line[emitted:emitted+len(p)]) && len(p) >= 1 && cur + len(p) <= 70 && (emitted > 0 ==> cur == 1)) && \
+//@        (!samearr(p, line) && len(p) == 1 ==> cur == 0 && emitted > 0 && p[0] == 32) && \
+//@        (!samearr(p, line) && len(p) != 1 ==> len(p) == 2 && p[0] == 13 && p[1] == 10 && cur >= 1 && cur <= 70)
+//@   on call (*bytes.Buffer).Write(_, p) ret (n, e): emitted = ite(samearr(p, line), emitted + len(p), emitted); \
+//@        cur = ite(samearr(p, line), cur + len(p), ite(len(p) == 1, cur + 1, 0))
+//@   ensures @whole_attribute_written_and_last_line_terminated emitted == len(line) && cur == 0
+//@   loop 0 sig "for i := 0; i < len(line);" invariant 0 <= i && i <= len(line) && emitted == i && cur == 0 && line != nil
